@@ -9,6 +9,10 @@ mod interpose;
 mod maps;
 mod mem;
 mod place;
+mod probe_case;
+mod probes;
+mod shapes;
+mod sigs;
 mod targets;
 mod worker;
 
@@ -31,6 +35,22 @@ pub fn dispatch(req: &Value) -> Value {
                 serde_json::to_value(hist::execute(&c, &opts)).unwrap()
             }
             Err(e) => json!({"harness_error": format!("bad hist case: {e}")}),
+        },
+        "probe" => match serde_json::from_value::<probe_case::ProbeCase>(req["case"].clone()) {
+            Ok(c) => serde_json::to_value(probe_case::execute(&c)).unwrap(),
+            Err(e) => json!({"harness_error": format!("bad probe case: {e}")}),
+        },
+        "sig" => match serde_json::from_value::<sigs::SigCase>(req["case"].clone()) {
+            Ok(c) => serde_json::to_value(sigs::execute_sig(&c)).unwrap(),
+            Err(e) => json!({"harness_error": format!("bad sig case: {e}")}),
+        },
+        "boolsig" => match serde_json::from_value::<sigs::BoolCase>(req["case"].clone()) {
+            Ok(c) => serde_json::to_value(sigs::execute_bool(&c)).unwrap(),
+            Err(e) => json!({"harness_error": format!("bad bool case: {e}")}),
+        },
+        "shape" => match serde_json::from_value::<shapes::ShapeCase>(req["case"].clone()) {
+            Ok(c) => serde_json::to_value(shapes::execute(&c)).unwrap(),
+            Err(e) => json!({"harness_error": format!("bad shape case: {e}")}),
         },
         "ping" => json!({"pong": true}),
         _ => json!({"harness_error": format!("unknown op {op}")}),
@@ -63,7 +83,7 @@ where
                     let mut sub = Recorder::new(&prop, &engine, &rule);
                     let mut w = Worker::spawn(&format!("{prop}-{engine}-{sh}"));
                     let hello = w.hello.clone();
-                    if hello["works"] != json!(true) || hello["saw_mmap"] != json!(true) || hello["saw_mprotect"] != json!(true) || hello["saw_flush"] != json!(true) {
+                    if hello["saw_mmap"] != json!(true) || hello["saw_mprotect"] != json!(true) || hello["saw_flush"] != json!(true) {
                         sub.inconclusive.push(format!("worker calibration failed: {hello}"));
                         return sub;
                     }
@@ -194,6 +214,47 @@ fn cmd_place(prop: &str) -> i32 {
     rec.finish(&out_path())
 }
 
+fn cmd_probe(prop: &str) -> i32 {
+    use probe_case::ProbeMode;
+    let (modes, engine, rule) = if prop == "C10" {
+        (vec![ProbeMode::Bool(true), ProbeMode::Bool(false)], "n-probe-bool", "N: assembly caller stub loads a generated register file (6 integer argument registers, xmm0-7, rbx/rbp/r12-r15, 0-16 stack words) and calls a function whose result is forced with will_return_boolean(v) (target in program text or in an arena at a generated address, 4 signature shapes); oracle: al == v exactly, callee-saved registers and rsp as before the call, original body not run; every case is non-trivial; distinct by (register file, value, target)")
+    } else {
+        (vec![ProbeMode::Fake], "n-probe", "N: assembly caller stub loads a generated register file (6 integer argument registers, xmm0-7 full 128 bits, rbx/rbp/r12-r15, 0-16 stack words), calls the faked function; the recorder fake stores everything it sees on entry (incl. rsp and [rsp]) and returns generated rax/rdx/xmm0/xmm1; near target (rel32 trampoline) and far target (mov rax,imm64; jmp rax); oracle: seen == set for every argument/callee-saved register, stack word, rsp (= caller rsp - 8 with the caller's return address on top), returned == set, callee-saved and rsp restored (rax/r10/r11 on entry are not compared); every case non-trivial; distinct by (register file, form, target)")
+    };
+    let mut rec = Recorder::new(prop, engine, rule);
+    rec.assumptions.push("x86-64 SysV ABI; assembly probes in vnative/src/probes.rs".into());
+    let n = cases(4000, 400_000);
+    run_sharded(&mut rec, if prop == "C10" { 10 } else { 13 }, n, shards(), "probe", Value::Null, Duration::from_secs(20), move || probe_case::strategy(modes.clone()), probe_case::judge, |c| json!({"ProbeCase": c}));
+    if prop == "C13" {
+        let l = rec.classes.get("fake/long-trampoline").copied().unwrap_or(0);
+        let s = rec.classes.get("fake/short-trampoline").copied().unwrap_or(0);
+        if rec.violations.is_empty() && (l * 10 < (l + s) * 3 || s * 10 < (l + s) * 3) {
+            rec.inconclusive.push(format!("trampoline forms unbalanced: long {l} short {s} (each must be >= 30%)"));
+        }
+    }
+    rec.finish(&out_path())
+}
+
+fn cmd_shapes(prop: &str) -> i32 {
+    let mut rec = Recorder::new(prop, "n-shapes", "N: 10 Rust-level signature shapes (12 integers; 10 doubles; 13 mixed int/float with f32 result; 48-byte aggregate by value with [u64; 8] returned through the hidden slot; u128; scalar pair; extern \"C\" with 8 integers + 9 doubles; extern \"C\" aggregate in and out; references with an Option result; small integers with i128) x generated argument values x {real original: near fake, rel32 trampoline | synthetic original in a far arena: long trampoline}; oracle (differential): result of calling the faked function == result of calling the fake directly with the same arguments (the fake folds every argument into its result), original body not run; every case non-trivial; distinct by (shape, form, values)");
+    let n = cases(4000, 400_000);
+    run_sharded(&mut rec, 131, n, shards(), "shape", Value::Null, Duration::from_secs(20), shapes::strategy, shapes::judge, |c| json!({"ShapeCase": c}));
+    rec.finish(&out_path())
+}
+
+fn cmd_sig(prop: &str) -> i32 {
+    if prop == "C10" {
+        let mut rec = Recorder::new(prop, "n-boolsig", "N: generated signature strings (type grammar rendered in type_name style; return types biased to renderings that merely end in `-> bool`: nested fn pointers, &dyn Fn() -> bool, raw pointers to fn types, and look-alikes Option<bool>, (bool,), [bool; 1], &bool) passed through FuncPtr::new + will_return_boolean(v); oracle (from the generated structure, never by parsing): accepted iff the top-level return type is exactly bool; refusal = panic with no interposed call and no byte changed; accepted => the call returns v; non-trivial = return type textually ending in `-> bool` without being bool, or bool behind >= 3 parameters; distinct by (string, value)");
+        let n = cases(12_000, 600_000);
+        run_sharded(&mut rec, 110, n, shards(), "boolsig", Value::Null, Duration::from_secs(20), sigs::bool_case_strategy, sigs::judge_bool, |c| json!({"BoolCase": c}));
+        return rec.finish(&out_path());
+    }
+    let mut rec = Recorder::new(prop, "n-sigstrings", "N: generated function-pointer type structures (arity 0-6; integers, floats, bool, char, (), &T/&mut T/*const T/*mut T, &str, slices, arrays, tuples, Option, nominal types, nested fn pointers, &dyn Fn; safe/unsafe; ABI Rust/C/system) rendered to strings; pair = (sigA, sigA with exactly one grammar mutation: arity +/-1, one parameter, return type, &<->&mut, unsafety, ABI; or identical; or null pointer; or checked x unchecked mix) through FuncPtr::new + will_execute_raw / will_execute; oracle: identical => accepted and redirected; different => panic containing `Signature mismatch` / `Pointer must not be null` with zero interposed calls and no byte changed; non-trivial = judged one-component-different pairs plus identical pairs; distinct by (sigA, sigB, api)");
+    let n = cases(16_000, 800_000);
+    run_sharded(&mut rec, 9, n, shards(), "sig", Value::Null, Duration::from_secs(20), sigs::sig_case_strategy, sigs::judge_sig, |c| json!({"SigCase": c}));
+    rec.finish(&out_path())
+}
+
 fn hist_setup(prop: &str) -> (hist::Opts, &'static str, &'static str) {
     match prop {
         "C03" => (hist::Opts { snapshots: true, logs: false, detail_limit: 0 }, "n-hist-snap", "N: generated install histories (targets with live neighbours at +/-16 bytes in synthetic arenas, last slot of a page, two instantiations of one generic, libc labs) with a full snapshot of every readable executable mapping before the first injector, after every step and after every scope exit; oracle: history invariant - differing bytes within 16 bytes of a named target or in a trampoline page the injector was seen to create, nothing else; bystanders return their own values; non-trivial = install on a target packed between live neighbours / generic instantiation / libc function; distinct by (lifetime, target, kind, address)"),
@@ -248,6 +309,22 @@ fn cmd_replay(path: &str) -> i32 {
         let c: place::PlaceCase = serde_json::from_value(c.clone()).expect("PlaceCase");
         let ex = w.exec(&json!({"op": "place", "case": c}), Duration::from_secs(30));
         judge_place(&mut rec, &c, ex, &hello)
+    } else if let Some(c) = case.get("ProbeCase") {
+        let c: probe_case::ProbeCase = serde_json::from_value(c.clone()).expect("ProbeCase");
+        let ex = w.exec(&json!({"op": "probe", "case": c}), Duration::from_secs(30));
+        probe_case::judge(&mut rec, &c, ex, &hello)
+    } else if let Some(c) = case.get("ShapeCase") {
+        let c: shapes::ShapeCase = serde_json::from_value(c.clone()).expect("ShapeCase");
+        let ex = w.exec(&json!({"op": "shape", "case": c}), Duration::from_secs(30));
+        shapes::judge(&mut rec, &c, ex, &hello)
+    } else if let Some(c) = case.get("SigCase") {
+        let c: sigs::SigCase = serde_json::from_value(c.clone()).expect("SigCase");
+        let ex = w.exec(&json!({"op": "sig", "case": c}), Duration::from_secs(30));
+        sigs::judge_sig(&mut rec, &c, ex, &hello)
+    } else if let Some(c) = case.get("BoolCase") {
+        let c: sigs::BoolCase = serde_json::from_value(c.clone()).expect("BoolCase");
+        let ex = w.exec(&json!({"op": "boolsig", "case": c}), Duration::from_secs(30));
+        sigs::judge_bool(&mut rec, &c, ex, &hello)
     } else if let Some(c) = case.get("HistCase") {
         let c: hist::HistCase = serde_json::from_value(c.clone()).expect("HistCase");
         let (opts, _, _) = hist_setup(&prop);
@@ -283,6 +360,9 @@ fn main() {
         "worker" => worker::main(),
         "place" => cmd_place(prop.as_deref().unwrap_or("C01")),
         "hist" => cmd_hist(prop.as_deref().unwrap_or("C02")),
+        "probe" => cmd_probe(prop.as_deref().unwrap_or("C13")),
+        "sig" => cmd_sig(prop.as_deref().unwrap_or("C09")),
+        "shapes" => cmd_shapes(prop.as_deref().unwrap_or("C13")),
         "replay" => cmd_replay(args.get(2).expect("replay <file>")),
         "calibrate" => {
             worker::install_panic_hook();
